@@ -45,6 +45,9 @@ func runC08(r *Run) {
 	nPrefix := t.Intn(scale(200, 900), "prefix")
 	g := newEnvGen(r)
 	g.maxRTT = 1 << 52
+	if cfg.Name == "gradient2" && t.Chance(50, "g2-small-units") {
+		g.base = []int64{10, 15, 100, 7}[t.Intn(4, "g2-base")]
+	}
 	rand.Seed(k)
 	a, err := buildAlgo(cfg, false)
 	if err != nil {
@@ -103,6 +106,15 @@ func runC08(r *Run) {
 		hi = lo * int64(2+t.Intn(30, "rhi-mult"))
 	case 3:
 		hi = lo + lo/int64(1+t.Intn(50, "rhi-frac")) + 1
+	}
+	if cfg.Name == "gradient2" && len(hist) > 0 && t.Chance(60, "g2-near-long-rtt") {
+		// gradient in (0.5, 1): rtt between the recent level and twice that; neighbouring values
+		lvl := hist[len(hist)-1].RTT
+		if lvl < 1 {
+			lvl = 1
+		}
+		lo = lvl + lvl*int64(t.Intn(9, "g2-k"))/8
+		hi = lo + 1 + int64(t.Intn(3, "g2-d"))
 	}
 	if hi > 1<<60 || hi <= lo {
 		hi = lo + 1
@@ -165,11 +177,12 @@ func runC15(r *Run) {
 	r.Mixf("C15 %s samples=%d level=%d", cfg, n, level)
 	rtts := make([]int64, 0, n)
 	ests := make([]int, 0, n)
-	// feasible reset positions; -1 = construction
-	feas := []int{-1}
+	// feasible baseline origins: b == min(rtts[from..i]) (min of nothing = 0 = unset); 0 = construction
+	feas := []int{0}
 	stepUps := 0
 	segLeft := 0
 	var segKind int
+	zeros := t.Chance(40, "allow-zero-rtt")
 	for i := 0; i < n; i++ {
 		if segLeft == 0 {
 			segKind = t.Pick([]int{6, 2, 2, 1, 1}, "rtt-seg")
@@ -200,6 +213,10 @@ func runC15(r *Run) {
 		if rtt >= 1<<53 {
 			rtt = 1<<53 - 1
 		}
+		if zeros && t.Chance(3, "zero-rtt") {
+			rtt = 0 // stalled clock: a zero RTT leaves the baseline unset
+			r.Fault("F-latency:rtt0")
+		}
 		est := a.Lim.EstimatedLimit()
 		inflight := est
 		if t.Chance(20, "idle") {
@@ -217,64 +234,60 @@ func runC15(r *Run) {
 			r.Fail("baseline-above-sample", cfg.Name, "after sample %d (rtt %d) the no-load baseline is %d, greater than the sample just seen [%s]", i, rtt, b, cfg)
 			return
 		}
-		// update feasible set
+		// update the feasible origins
 		var nf []int
-		for _, k := range feas {
-			if cfg.Name == "vegas" {
-				from := k
-				if from < 0 {
-					from = 0
-				}
-				if minOf(rtts[from:i+1]) == b {
-					nf = append(nf, k)
-				}
-			} else {
-				// gradient: baseline = min over samples after the reset sample k (unset if none)
-				if k == i {
+		if rtt == 0 {
+			// the baseline is unset from here on (b == 0 was checked above); measuring restarts after this sample
+			nf = []int{i + 1}
+		} else {
+			for _, from := range feas {
+				if from > i {
+					if b == 0 {
+						nf = append(nf, from)
+					}
 					continue
 				}
-				if minOf(rtts[k+1:i+1]) == b {
-					nf = append(nf, k)
+				if minOf(rtts[from:i+1]) == b {
+					nf = append(nf, from)
 				}
 			}
-		}
-		if cfg.Name == "vegas" {
-			if b == rtt && (len(nf) == 0 || nf[len(nf)-1] != i) {
-				nf = append(nf, i)
+			if cfg.Name == "vegas" {
+				// a probe replaces the baseline with this sample
+				if b == rtt && (len(nf) == 0 || nf[len(nf)-1] != i) {
+					nf = append(nf, i)
+				}
+			} else if b == 0 {
+				// gradient probe: baseline unset, measuring restarts after this sample
+				nf = append(nf, i+1)
 			}
-		} else if b == 0 {
-			nf = append(nf, i)
 		}
 		if r.Verbose && i < 80 {
-			r.Notef("sample %d rtt=%d est=%d baseline=%d feasible=%v", i, rtt, est, b, tailInts(nf, 6))
+			r.Notef("sample %d rtt=%d est=%d baseline=%d feasible origins=%v", i, rtt, est, b, tailInts(nf, 6))
 		}
 		if len(nf) == 0 {
-			r.Fail("baseline-not-a-minimum", cfg.Name, "after sample %d (rtt %d) the baseline %d is not the minimum of the samples since any possible reset (feasible resets before: %v) [%s]", i, rtt, b, tailInts(feas, 8), cfg)
+			r.Fail("baseline-not-a-minimum", cfg.Name, "after sample %d (rtt %d) the baseline %d is not the minimum of the samples since any possible reset (feasible origins before: %v) [%s]", i, rtt, b, tailInts(feas, 8), cfg)
 			return
 		}
 		feas = nf
 		// resets recur
 		last := feas[len(feas)-1]
-		age := i - last
+		age := i + 1 - last
 		bound := 0
 		switch {
 		case cfg.Name == "vegas":
-			from := last
-			if from < 0 {
-				from = 0
-			}
+			from := minInt(last, i)
 			mx := 1
 			for _, e := range ests[from : i+1] {
 				if e > mx {
 					mx = e
 				}
 			}
-			bound = cfg.ProbeMult*(mx+1) + 1
+			bound = cfg.ProbeMult*(mx+1) + 2
 		case cfg.ProbeInterval != -1:
-			bound = 2 * cfg.ProbeInterval
+			bound = 2*cfg.ProbeInterval + 1
 		}
 		if bound > 0 && age >= bound+1 {
-			r.Fail("baseline-reset-overdue", cfg.Name, "at sample %d the most recent reset consistent with the observed baselines is sample %d (%d samples ago); the bound is %d [%s]", i, last, age, bound, cfg)
+			r.Fail("baseline-reset-overdue", cfg.Name, "at sample %d the most recent reset consistent with the observed baselines has its measuring origin at sample %d (%d samples ago); the bound is %d [%s]", i, last, age, bound, cfg)
 			return
 		}
 		if len(feas) > 64 {
